@@ -69,7 +69,7 @@ CURATED = {
         # flags and directory handling may change without touching any property
         "dll_name": ("C15", "C17", "C18",), "dll_path": ("C17", "C18",), "load_dll": ("C15", "C17", "C18"),
         "DllModel.__init__": ("C15", "C18"), "DllModel._load_dll": ("C15", "C18"), "DllModel.make_kernel": ("C01", "C11", "C15",),
-        "DllKernel.__init__": ("C01", "C11"), "DllKernel._call_kernel": ("C01", "C11"),
+        "DllKernel.__init__": ("C01", "C11"),
     },
     "kernelpy": {
         "PyModel.make_kernel": ("C09",), "PyInput.__init__": ("C01", "C09",), "PyKernel.__init__": ("C01", "C09", "C11",), "PyKernel._call_kernel": ("C01", "C06", "C09", "C11", "C14",),
